@@ -49,6 +49,14 @@ def run(ctx):
     somes = [b for b, e in prims.ret_variants(gn) if e[0] == 'agg' and e[2] == 'Some']
     ctx.ob(len(somes) == 1 and guarded_any(gn, somes[0], [r'^\(.*\.timeout <= self\.current_time\)$']) and guarded_any(gn, somes[0], [r'^BinaryHeap::peek\(self\.operation_ack_timeouts\) is Some$']),
            'an operation is due when its deadline <= the engine clock', 'fire|predicate', loc=gn.loc())
+    # (added after the mutation sweep) "now" is the time of this very call: every engine entry point adopts the caller's clock first
+    for nm_, ok_, arg_, v_ in prims.clock_updates(F):
+        ctx.ob(ok_, 'ProtocolState::%s adopts the caller\'s time (update_internal_clock(%s)) on every path before any other engine work, so deadlines are compared with the current service time' % (nm_, arg_), 'fire|clock|' + nm_, loc=v_.loc() if v_ else None)
+    uc = ctx.fn('ProtocolState::update_internal_clock')
+    wr = [(show(pe), show(rve)) for (i, s_, pe, rve) in uc.field_writes()]
+    ctx.ob(('self.current_time', 'current_time') in wr, 'update_internal_clock stores the given time as the engine clock (%s)' % wr, 'fire|clock|store', loc=uc.loc())
+    cw = [m for f, m in prims.field_mutations(F, 'protocol::ProtocolState', 'src/protocol.rs') if f == 'current_time']
+    ctx.ob(len(cw) == 1 and short(cw[0].view.path) == 'ProtocolState::update_internal_clock', 'the engine clock is written nowhere else', 'fire|clock|writers', loc=uc.loc())
     rf = prims.rets_after(gn, [r'^BinaryHeap::peek\(self\.operation_ack_timeouts\) is Some$', r'^\(.*\.timeout <= self\.current_time\)$'])
     ctx.ob(rf == {'Some'}, 'completeness: a record whose deadline has passed is always reported due (%s)' % sorted(rf or []), 'fire|complete', loc=gn.loc())
     pa = ctx.fn('ProtocolState::process_ack_timeouts')
@@ -63,7 +71,7 @@ def run(ctx):
     fns = sorted(m.view.path.split('::')[-1] for _, m in clears)
     ctx.ob(fns == ['handle_network_event_connection_closed', 'reset'], 'the heap is cleared at close and reset (%s)' % fns, 'fire|clear')
     cf = ctx.fn('ProtocolState::complete_operation_as_failure')
-    oks = [b for b, e in prims.ret_variants(cf) if show(e) == 'Result::Ok{0: (tuple){}}' and guarded_any(cf, b, [r'^Option::is_none\(HashMap::remove\(self\.operations, id\)\)$'])]
+    oks = [b for b, e in prims.ret_variants(cf) if show(e) == 'Result::Ok{0: (tuple){}}' and guarded_any(cf, b, [r'^HashMap::remove\(self\.operations, id\) is None$'])]
     ctx.ob(bool(oks), 'failing an id that no longer exists (ack arrived first) is a no-op', 'fire|stale', loc=cf.loc())
     # the heap's order is the deadline order: both comparison impls compare `timeout` first; any other
     # key may only break ties (BinaryHeap sifts with PartialOrd::le/lt, i.e. partial_cmp)
@@ -92,7 +100,7 @@ def run(ctx):
     incs = [m for m in prims.mutations(ur) if m.kind == 'assign' and show(m.path).endswith('.interruption_count')]
     srcs = ' ## '.join(show(c.arg(0)) for c in ur.calls('Iterator::collect', 'collect'))
     ctx.ob(len(incs) == 2 and all('AddWithOverflow 1' in show(m.rv) for m in incs) and 'pending_non_publish_operations' in srcs and 'pending_publish_operations' in srcs, 'the count of every member of both ack tables is incremented by one', 'retry|increment', loc=ur.loc())
-    ctx.ob(all(guarded_any(ur, m.bb, [r'^!Option::is_none\(self\.config\.max_interrupted_retries\)$']) for m in incs), 'counting happens only when a limit is configured', 'retry|nolimit', loc=ur.loc())
+    ctx.ob(all(guarded_any(ur, m.bb, [r'^self\.config\.max_interrupted_retries is Some$']) for m in incs), 'counting happens only when a limit is configured', 'retry|nolimit', loc=ur.loc())
     fe = ctx.fn('ProtocolState::fail_operations_exceeding_max_interruption_limit')
     preds = []
     for _, c in F.callees_of(fe):
